@@ -49,7 +49,7 @@ def probes():
             "docstring_replaced", "docstring_added", "async_def", "nested_def", "decorated_def", "method",
             "file_unchanged", "io_fault_fired", "line_fault_fired", "fault_after_write_open", "second_pass",
             "multiline_header", "colon_in_default", "backslash_in_docstring", "docstring_only_body",
-            "types_only_docstring"] + [
+            "types_only_docstring", "header_over_100_columns"] + [
         "lexical_shape_" + x for x in SHAPES]
 
 
@@ -92,6 +92,16 @@ def func_item(draw, depth=0, method=False, used=None):
                 p_["default"] = "None"
         iface["params"][j]["default"] = draw(st.sampled_from(("'a:b'", "{'k': 1}", "lambda q: q", "(1, (2, 3))", "'x)'")))
         iface["params"][j]["odd_default"] = True
+    if iface["params"] and draw(st.integers(0, 6)) == 6:
+        # a header far longer than any line-length limit whose string default contains spaces (a writer that re-flows
+        # the header must not break inside the literal)
+        j = draw(st.integers(0, len(iface["params"]) - 1))
+        for p_ in iface["params"][j:]:
+            if p_.get("default") is None:
+                p_["default"] = "None"
+        iface["params"][j]["default"] = repr(draw(st.sampled_from(LONG_DEFAULTS)))
+        iface["params"][j]["typ"] = "str"
+        iface["params"][j]["long_default"] = True
     if iface["params"] and draw(st.integers(0, 7)) == 7:
         iface["params"][0]["doc"] = iface["params"][0]["doc"] + " matching \\\\d+ digits"
     item = {"kind": "func", "iface": iface, "style": style, "types_in": types_in,
@@ -251,6 +261,9 @@ def unshape(text, shape):
 
 
 # -------------------------------------------------------------------------------------- renderer
+LONG_DEFAULTS = ("hello there dear friend of the family and of everybody else who happens to be around today",
+                 "%(asctime)s %(levelname)s %(name)s: %(message)s -- written by the worker that handled the request",
+                 "a b  c   d    e     f      g       h        i         j          k           l            m")
 _OTHER_TYPE = {"int": "float", "float": "int", "str": "int", "bool": "int"}
 
 
@@ -619,6 +632,8 @@ def _features(spec):
                 f["defaults"] = True
             if any(p.get("odd_default") for p in it["iface"]["params"]):
                 f["colon_in_default"] = True
+            if any(p.get("long_default") for p in it["iface"]["params"]):
+                f["header_over_100_columns"] = True
             if any("\\\\d+" in (p.get("doc") or "") for p in it["iface"]["params"]):
                 f["backslash_in_docstring"] = True
             if it.get("doc_only") and it["style"] != "none" and not it.get("nested"):
@@ -787,7 +802,7 @@ def simulate(plan, tier_lines=12, per_line=False):
                 viols.append({"clause": "A5", "detail": "doctrans raised %s (%s) but the file changed" % (
                     o.exc_type, (o.exc_msg or "")[:120]), "sig": {"what": "natural_error", "site": o.exc_site}})
             for k in ("async", "nested", "decorated", "method", "multiline", "colon_in_default", "backslash_in_docstring",
-                      "docstring_only_body", "types_only_docstring"):
+                      "docstring_only_body", "types_only_docstring", "header_over_100_columns"):
                 if feats.get(k):
                     bump(probe, {"async": "async_def", "nested": "nested_def", "decorated": "decorated_def",
                                  "method": "method", "multiline": "multiline_header"}.get(k, k))
